@@ -1,4 +1,16 @@
+pub mod c05;
+pub mod c05e;
+pub mod c09;
+pub mod c09e;
+pub mod c10;
+pub mod c10e;
+pub mod c12;
+pub mod c13;
+pub mod c14;
+pub mod c14e;
 pub mod c16;
+pub mod c20;
+pub mod c20e;
 
 use crate::Ctx;
 use mdv_core::Report;
@@ -12,7 +24,14 @@ pub fn level_of(prop: &str) -> &'static str {
 
 pub fn dispatch(prop: &str, ctx: &Ctx, rep: &mut Report) -> bool {
     match prop {
+        "C05" => c05::run(ctx, rep),
+        "C09" => c09::run(ctx, rep),
+        "C10" => c10::run(ctx, rep),
+        "C12" => c12::run(ctx, rep),
+        "C13" => c13::run(ctx, rep),
+        "C14" => c14::run(ctx, rep),
         "C16" => c16::run(ctx, rep),
+        "C20" => c20::run(ctx, rep),
         _ => return false,
     }
     true
